@@ -6,6 +6,7 @@ import (
 	"fmt"
 	"io"
 	"net"
+	"reflect"
 	"runtime"
 	"sort"
 	"strings"
@@ -108,6 +109,7 @@ var variants = []map[string]target{
 		"t1": {net: "tcp", host: "127.0.0.1", port: 8022, how: "listen"},
 		"t2": {net: "tcp", host: "127.0.0.1", port: 8023, how: "listentcp"},
 		"u1": {net: "unix", path: "127.0.0.1:8022", how: "listenunix"},
+		"u2": {net: "unix", path: "127.0.0.1:8023", how: "listen"},
 		"x":  {net: "tcp", host: "127.0.0.1", port: 9999},
 		"xu": {net: "unix", path: "/nonexistent/sock"},
 	},
@@ -115,6 +117,7 @@ var variants = []map[string]target{
 		"t1": {net: "tcp", host: "localhost", port: 8022, how: "listen"},
 		"t2": {net: "tcp", host: "localhosT", port: 8022, how: "listen"},
 		"u1": {net: "unix", path: "localhost:8022", how: "listen"},
+		"u2": {net: "unix", path: "/tmp/verif-c37-b.sock", how: "listenunix"},
 		"x":  {net: "tcp", host: "localhost", port: 8023},
 		"xu": {net: "unix", path: "localhost:8023"},
 	},
@@ -122,6 +125,7 @@ var variants = []map[string]target{
 		"t1": {net: "tcp", host: "::1", port: 0, how: "listentcp"},
 		"t2": {net: "tcp", host: "::1", port: 4243, how: "listen"},
 		"u1": {net: "unix", path: "[::1]:4242", how: "listenunix"},
+		"u2": {net: "unix", path: "[::1]:4243", how: "listenunix"},
 		"x":  {net: "tcp", host: "::", port: 4242},
 		"xu": {net: "unix", path: "::1:4242"},
 	},
@@ -489,4 +493,39 @@ func (s *scen) teardown(ignore map[int]bool) error {
 		return fmt.Errorf("teardown: %d goroutines leaked so far; last:\n%s", leakedGoroutines, left[0].Raw)
 	}
 	return nil
+}
+
+// registeredKeys reads forwardList.entries of the client (unexported, read-only, by reflection; only called
+// when the process is quiescent): the (network|address) keys that are currently registered.  ok is false if
+// the layout is not the expected one.
+func (s *scen) registeredKeys() (keys map[string]bool, ok bool) {
+	defer func() {
+		if recover() != nil {
+			keys, ok = nil, false
+		}
+	}()
+	v := reflect.ValueOf(s.p.client).Elem().FieldByName("forwards").FieldByName("entries")
+	if !v.IsValid() || v.Kind() != reflect.Slice {
+		return nil, false
+	}
+	keys = map[string]bool{}
+	for i := 0; i < v.Len(); i++ {
+		e := v.Index(i)
+		if e.Kind() == reflect.Ptr {
+			e = e.Elem()
+		}
+		keys[e.FieldByName("network").String()+"|"+e.FieldByName("addr").String()] = true
+	}
+	return keys, true
+}
+
+// muxLoopBlocked reports whether the client's connection read loop is parked handing a channel open to
+// the full mux.incomingChannels queue (from the last dump).
+func (s *scen) muxLoopBlocked() bool {
+	for _, g := range s.lastDump {
+		if g.State == "chan send" && g.has("ssh.(*mux).handleChannelOpen") && g.has("ssh.(*mux).loop") {
+			return true
+		}
+	}
+	return false
 }
